@@ -349,6 +349,7 @@ func mutateBlob(r *vh.RNG, b []byte) []byte {
 func genSchedule(r *vh.RNG, k *kase, w *world, p schedParams) {
 	emit := func(op string) {
 		k.ops = append(k.ops, op)
+		journalOp(op)
 		if err := w.exec(op); err != nil && w.corr == "" {
 			w.corr = "harness: " + err.Error()
 		}
